@@ -77,9 +77,11 @@ pub fn linear(tr: &mut Trace, rng: &mut Rng, thorough: bool) {
             1 => 3,
             _ => 2 + rng.below(if thorough { 39 } else { 14 }),
         };
+        // the coincidence axes need at least 4 points to be uneven at all
+        let n = if class == "indexlike" || class == "meanfirst" { n.max(4) } else { n };
         let trailing = gen::TRAILING[rng.below(gen::TRAILING.len())];
         let dclass = gen::DATA_CLASSES[rng.below(gen::DATA_CLASSES.len())];
-        let xdef = i % 7 == 3;
+        let xdef = i % 7 == 3 && class != "indexlike" && class != "meanfirst";
         // every 9th build in huge / tiny units (alternating), the others in ordinary ones
         let mag64 = if i % 9 == 4 { if (i / 9) % 2 == 0 { 660 } else { -660 } } else { 0 };
         let mag32 = if i % 9 == 5 || i % 9 == 8 { if (i / 9) % 2 == 0 { 56 } else { -56 } } else { 0 };
